@@ -49,5 +49,28 @@ fn main() {
             }
         }
     }
+    // the digest observed mid-stream and after more writes: hash() at any point is the one-shot hash of the bytes written so far
+    for probe_every in [1usize, 3] {
+        let mut w = HashedWrite::new(Limited { out: vec![], max_per_call: 4096 });
+        let mut pos = 0;
+        let mut k = 0;
+        while pos < data.len() {
+            let n = 997.min(data.len() - pos);
+            w.write_all(&data[pos..pos + n]).unwrap();
+            pos += n;
+            k += 1;
+            if k % probe_every == 0 {
+                let h = w.hash();
+                let want = compute_data_hash(&data[..pos]);
+                if h != want {
+                    println!(
+                        "WITNESS HashedWrite: hash() after {pos} bytes (asked after every {probe_every} write_all calls of 997 bytes, i.e. also earlier in the same stream) is {} but compute_data_hash of the {pos} bytes written is {}",
+                        h.hex(), want.hex()
+                    );
+                    std::process::exit(1);
+                }
+            }
+        }
+    }
     println!("no violation found");
 }
